@@ -120,3 +120,45 @@ func C07_Blank() {
 	cmds, _, err := parseOne(s)
 	nd.Assert(err == nil && Skel(cmds) == "[(cmd (simple <lit:zz> <lit:y>))]", "the command after blank lines is returned")
 }
+
+// c07Ref: the stream a + "zz y\n" is cut into commands by the independent
+// recogniser; successive ParseCommands calls on one scanner must stop at
+// exactly those cuts (the parser's own solo parse is not consulted, so a
+// change that makes both the solo parse and the stream parse stop early is
+// still seen).
+func c07Ref(a []rune) {
+	if contInHeredoc(a) {
+		nd.Assume(false)
+	}
+	stream := append([]rune{}, a...)
+	if len(a) == 0 || a[len(a)-1] != '\n' {
+		stream = append(stream, '\n')
+	}
+	stream = append(stream, []rune("zz y\n")...)
+	nd.Observe(string(stream))
+	s := NewScanner(stream)
+	off := 0
+	for call := 0; call < 6 && off < len(stream); call++ {
+		v, end := RefParse(stream[off:])
+		if v != RefComplete {
+			nd.Cover("ref-rejects")
+			return
+		}
+		_, _, err := parseOne(s)
+		nd.Assert(err == nil, "each command the recogniser delimits in the stream is accepted")
+		if err != nil {
+			return
+		}
+		nd.Assert(s.I == off+end, "each call stops exactly where the recogniser cuts the stream")
+		if s.I != off+end {
+			return
+		}
+		off += end
+	}
+	if off == len(stream) {
+		nd.Cover("stream-consumed")
+	}
+}
+
+func C07_Ref_T1() { c07Ref(holeTemplate()) }
+func C07_Ref_F3() { c07Ref(freeRunes(3, false)) }
